@@ -897,9 +897,9 @@ Proof. exists qi_long_owner. exact qi_utxo_refuted_lemma. Qed.
 
 (* about the UNREPAIRED constructor: delete together with the Props theorems after the fix *)
 Lemma internal_implies_in_zone_refuted_lemma :
-  (exists b a, length b = 21%nat /\ bytes_to_address b [0; 0] = Internal a
+  (exists b a, length b = 21%nat /\ bytes_to_address_gen false b [0; 0] = Internal a
                /\ in_zone a [0; 0] = false /\ in_zone a [1; 0] = true)
-  /\ (exists b a, length b = 19%nat /\ bytes_to_address b [1; 0] = Internal a
+  /\ (exists b a, length b = 19%nat /\ bytes_to_address_gen false b [1; 0] = Internal a
                /\ in_zone a [1; 0] = false /\ in_zone a [0; 0] = true).
 Proof.
   split.
@@ -908,11 +908,11 @@ Proof.
 Qed.
 
 Lemma in_zone_implies_internal_refuted_lemma :
-  exists b a, length b = 21%nat /\ bytes_to_address b [0; 0] = External a /\ in_zone a [0; 0] = true.
+  exists b a, length b = 21%nat /\ bytes_to_address_gen false b [0; 0] = External a /\ in_zone a [0; 0] = true.
 Proof. exists f10_ext_input, (0 :: repeat 7 19). vm_compute. auto. Qed.
 
 Lemma big_to_address_refuted_lemma :
-  exists a, wf20 a /\ big_to_address a [0; 0] = External a /\ bytes_to_address a [0; 0] = Internal a.
+  exists a, wf20 a /\ bytes_to_address_gen false (strip_zeros a) [0; 0] = External a /\ bytes_to_address_gen false a [0; 0] = Internal a.
 Proof.
   exists (0 :: 5 :: repeat 7 18). split; [split; [unfold wf_bytes; repeat constructor|reflexivity]|].
   vm_compute. auto.
